@@ -143,6 +143,12 @@ def _weave_states_in_region(
                     if_state = _weave_states_in_region(op.true_region, state.copy(), rewriter)
                     else_state = _weave_states_in_region(op.false_region, state.copy(), rewriter)
 
+                    # the provider of the IR can mark the conditional itself as affecting the accelerators
+                    # (accfg.effects): nothing is known behind it then
+                    if isinstance(op.attributes.get("accfg.effects"), accfg.EffectsAttr) and has_accfg_effects(op):
+                        state.clear()
+                        continue
+
                     # states that got invalidated in one of the branches are unknown after the if
                     invalidated = [acc for acc in state if acc not in if_state or acc not in else_state]
                     # calculate the delta:
